@@ -1721,7 +1721,19 @@ class Evaluator:
         c = self.truth(self.eval(e.test, st), st, e.test)
         if isinstance(c, Const):
             return self.eval(e.body if c.v else e.orelse, st)
-        return gamma(c, self.eval(e.body, st), self.eval(e.orelse, st))
+        # each branch is evaluated under its own test: what it raises / stores / calls happens only when that branch is taken
+        outer = st.guard
+        st.guard = outer + (c,)
+        try:
+            a = self.eval(e.body, st)
+        finally:
+            st.guard = outer
+        st.guard = outer + (p_not(c),)
+        try:
+            b = self.eval(e.orelse, st)
+        finally:
+            st.guard = outer
+        return gamma(c, a, b)
 
     def eval_Starred(self, e, st):
         return Term('star', (self.eval(e.value, st),))
@@ -2801,7 +2813,8 @@ def h_abs(ev, pos, kw, st, node):
 def _reduce(head):
     def h(ev, pos, kw, st, node):
         v = ev.as_num(_arg(pos, kw, 0, 'a'), True)
-        if v is None or (set(kw) - {'a'}) or len(pos) > 1:
+        # `dtype=` of a sum / mean names the accumulator type: the (real) value is the same; the elements were computed before, in their own type
+        if v is None or (set(kw) - {'a'} - ({'dtype'} if head in ('Sum', 'Mean') else set())) or len(pos) > 1:
             return None
         if v.length is None:
             return None
@@ -2903,7 +2916,14 @@ def h_square(ev, pos, kw, st, node):
     v = ev.as_num(pos[0], True) if pos and not kw and len(pos) == 1 else None
     if v is None:
         return None
-    return Num(v.r * v.r, v.length, v.kind if v.length is not None else None)
+    out = Num(v.r * v.r, v.length, v.kind if v.length is not None else None)
+    if v.length is not None:
+        from .dtypes import dtype_of
+        ta = dtype_of(v)
+        out.dt = ta
+        if ta is not None and ta[0] == 'same':
+            ev.emit('selfpower', st, node, base=v, tag=ta, op='square')     # squared in the element type the caller's data has (DT3)
+    return out
 
 
 def h_negative(ev, pos, kw, st, node):
@@ -3071,6 +3091,50 @@ def h_pad(ev, pos, kw, st, node):
         parts.append(a_)
         if not (hi.is_const() and hi.const() == 0):
             parts.append(Num(a_.at(a_.length - C(1)).r, hi.r, 'ndarray'))
+        return mk_cat(parts) if len(parts) > 1 else a_
+    if arr is not None and isinstance(mode, Const) and mode.v in ('linear_ramp', 'reflect') and isinstance(pw, Tup) and len(pw.items) == 2 \
+            and not (set(kw) - {'array', 'pad_width', 'mode', 'end_values', 'reflect_type'}):
+        lo, hi = (ev.as_num(x_) for x_ in pw.items)
+        a_ = ev.as_num(arr, True) if not isinstance(arr, Num) else arr
+        if lo is None or hi is None or lo.length is not None or hi.length is not None or a_ is None or a_.length is None:
+            return None
+        first, last = a_.at(C(0)).r, a_.at(a_.length - C(1)).r
+        j = sym.idx()
+        parts = []
+        if mode.v == 'linear_ramp':
+            # the pad ramps linearly from end_values (outermost) to the edge value, the edge itself excluded: linspace(end, edge, width, endpoint=False)
+            endv = kw.get('end_values', Num(C(0)))
+            if 'reflect_type' in kw:
+                return None
+            el, er = (endv.items if isinstance(endv, Tup) and len(endv.items) == 2 else (endv, endv))
+            el, er = ev.as_num(el), ev.as_num(er)
+            if el is None or er is None or el.length is not None or er.length is not None:
+                return None
+            left = Num(el.r + j * (first - el.r) / lo.r, lo.r, 'ndarray') if not (lo.is_const() and lo.const() == 0) else None
+            right = Num(last + (j + C(1)) * (er.r - last) / hi.r, hi.r, 'ndarray') if not (hi.is_const() and hi.const() == 0) else None
+        else:
+            # mode='reflect': the array mirrored about its edge sample (edge not repeated); reflect_type='odd' mirrors the values about the edge value too.
+            # One reflection only (pad width below the array length) is modelled.
+            rt = kw.get('reflect_type', Const('even'))
+            if 'end_values' in kw or not (isinstance(rt, Const) and rt.v in ('even', 'odd')):
+                return None
+            odd = rt.v == 'odd'
+            def at(ix):
+                return a_.at(ix).r
+            left = right = None
+            if not (lo.is_const() and lo.const() == 0):
+                src = at(lo.r - j)
+                left = Num(C(2) * first - src if odd else src, lo.r, 'ndarray')
+            if not (hi.is_const() and hi.const() == 0):
+                src = at(a_.length - C(2) - j)
+                right = Num(C(2) * last - src if odd else src, hi.r, 'ndarray')
+            from . import values as _values
+            _values.ASSUMED_NONEMPTY.add('numpy.pad(mode=reflect): pad width below the array length (a single reflection)')
+        if left is not None:
+            parts.append(left)
+        parts.append(a_)
+        if right is not None:
+            parts.append(right)
         return mk_cat(parts) if len(parts) > 1 else a_
     if arr is None or not (isinstance(mode, Const) and mode.v == 'constant') or not isinstance(pw, Tup) or len(pw.items) != 2:
         return None
